@@ -2,7 +2,7 @@
 # Regression over every seeded defect: is it reported by the check of the property it was written against?
 # Uses a private scratch worktree (outside /repo and /verif) with the patch applied; /repo is never touched.
 cd "$(dirname "$0")"
-W=/tmp/ownreg-repo
+W=${OWNREG_WT:-/tmp/ownreg-repo}
 # optional arguments: names of seeded defects (default: all)
 LIST="$*"; [ -z "$LIST" ] && LIST=$(ls -d seeded/*/ | xargs -n1 basename)
 for n in $LIST; do
